@@ -74,6 +74,14 @@ CLAIMED = {
         technique="bounded symbolic execution of the real adaptive step (extracted from the current source) inside the real generate(), observing an unrelated spec object; symbolic parse-request histories over two spec objects",
         text="For every fitness/diversity trajectory in the bound (1 generation with threshold-straddling value sets, 2-3 generations with reduced sets) and both ways of ending the run (exhausted, abandoned+closed), all observables of an unrelated spec object B - repetition caps, compiled parse table, tuner start values - are unchanged afterwards; parse answers of two spec objects with look-alike regex/literal terminals are independent of the request history.",
         note=E1 + " Outside: interleaving two active runs (the cap is process-wide by design while a run is active), FandangoIO singletons.", ref="DESIGN.md section 3 C18"),
+    "C19": dict(
+        technique="bounded symbolic execution of the real PacketForecaster along every message history in the depth bound; z3 regular-expression reference for continuations and completeness",
+        text="For 5 protocol specs (option/star/bounded repetition/nesting; alternation with a two-message branch under a star; repeated two-message group; nested repetition of alternatives; one message type sent by both parties) and EVERY message history of depth <= 3 (thorough 5) reachable through the offered options: the offered (sender, recipient, type) set equals the continuation set of the message-level language and 'complete' is reported exactly for full interactions - both decided by z3 on a regular expression derived from the grammar IR.",
+        note=E1 + " Outside: specs sliced to a subset of parties, computed repetitions in protocol grammars, deeper histories.", ref="DESIGN.md section 3 C19"),
+    "C20": dict(
+        technique="bounded symbolic execution of the real receive path (parse_next_remote_packet + FandangoIO buffer) under symbolic remote data, interleaving and arrival schedule; z3 send-gate query on IoEvaluator",
+        text="In part (units, not the threaded loop): for every remote text of <= 2 (3) characters, every position of an interleaved third-party fragment and 0-2 fragments arriving late (time.sleep stub), the returned tree spells exactly the consumed fragments of one sender in order, exactly those leave the buffer, attribution is the forecast's, and data fitting no expected type raises; z3 shows on the formula generated from IoEvaluator.evaluate_individual that nothing is yielded (sent) while a constraint is violated or raises.",
+        note=E1 + " NOT covered: the threaded socket loop of _generate_io, real transports, thread interleavings inside add_receive, the accept step's re-evaluation, bytes-level data.", ref="DESIGN.md section 3 C20"),
 }
 
 NOT_APPLICABLE = {
